@@ -486,6 +486,20 @@ V({
     "trusted": ["chalk-solve truncate::needs_truncation"],
 })
 
+# -------------------------------------------------------------------------- V18
+V({
+    "id": "V18",
+    "title": "rec_solve_goal: RecursiveContext::solve_goal (chalk-recursive/src/fixed_point.rs), generic in goal and answer type",
+    "template": "v18_solve_goal.rs",
+    "assumptions": [
+        "V18: SearchGraph / Stack / Cache are abstract (views: node sequence, lookup, mixed-cycle predicate, cache map); their custom Index/IndexMut impls have no precondition (in-range is the callers' invariant); flagging a stack entry does not change which cycles are mixed",
+        "V18: solve_new_subgoal (the fixed-point loop, which calls back into solve_goal through the solver) is havoc; the new-goal branch is only constrained by 'minimums never go up'",
+        "V18: Minimums::update_from is min on the derived order of DepthFirstNumber (std::cmp::min); V::clone returns an equal value",
+        "V18: a Kani unit (K14) that would have run the whole engine on tiny propositional programs against the fixed-point semantics was written and dropped: CBMC does not finish even on one concrete 3-goal scenario (recursion through solve_goal/solve_new_subgoal/solve_iteration is unrolled 15^depth times)",
+    ],
+    "trusted": ["chalk-recursive SearchGraph / Stack / Cache (abstract)"],
+})
+
 # ===========================================================================
 GLOBAL_ASSUMPTIONS = [
     "soundness of rustc+Kani's model of core/alloc and of CBMC; soundness of Verus and Z3",
